@@ -1384,7 +1384,7 @@ impl Bitboard {
         }
 
         let is_check = self.is_current_in_check();
-        let is_mate = !self.is_any_move_legal(&self.generate_pseudo_legal_moves());
+        let is_mate = is_check && !self.is_any_move_legal(&self.generate_pseudo_legal_moves());
         self.unmake(result);
 
 
